@@ -112,11 +112,9 @@ impl Merge for Stats {
         self.max_text_len = self.max_text_len.max(o.max_text_len);
         self.distinct.extend(o.distinct);
         self.batch_hash = self.batch_hash.wrapping_add(o.batch_hash);
-        for s in o.samples {
-            if self.samples.len() < 6 {
-                self.samples.push(s);
-            }
-        }
+        self.samples.extend(o.samples);
+        self.samples.sort_by_key(|s| s["run"].as_u64().unwrap_or(u64::MAX));
+        self.samples.truncate(2);
         self.violations.extend(o.violations);
         self.violations.sort_by_key(|v| v.0);
         self.violations.truncate(4);
@@ -706,7 +704,7 @@ fn simulate_run(seed: u64, run: u64, fault_free: bool, stats: &mut Stats) -> (Sc
     stats.batch_hash = stats
         .batch_hash
         .wrapping_add(pool::batch_mix(run ^ if fault_free { 1 << 62 } else { 0 }, log.finish()));
-    if stats.samples.len() < 2 && run < 8 && !fault_free {
+    if run < 2 && !fault_free {
         stats.samples.push(json!({"run": run, "script": script_to_json(&Script { seed, run, fault_free, enumerate, ops: ops.clone() })}));
     }
     (Script { seed, run, fault_free, enumerate, ops }, found)
